@@ -123,8 +123,13 @@
 //   BlockStore   ABSTRACT: trait `StoreApi` with an uninterpreted `lookup(id) -> Option<ItemPtr>`; `get_item` is a bodiless trait
 //                method returning it (SUB `fn resolve_conflict` -> `fn resolve_conflict<B: StoreApi>`, `blocks: &mut BlockStore` ->
 //                `blocks: &mut B`, logged).  The contract holds for EVERY lookup function; what the proof needs of it is H2.
-//   ClientID     real: `ClientID(NonZeroU64)` holding `value | MASK` with derived PartialOrd (all values carry the same top bits, so
-//                the order is the order of the yjs values); here `ClientID(pub u64)` compared by value (PartialOrdSpecImpl).
+//   ClientID     real: `ClientID(NonZeroU64)` holding `value | MASK` with derived PartialOrd / Ord (all values carry the same top bits,
+//                so the order is the order of the yjs values); here `ClientID(pub u64)`: `PartialOrd::partial_cmp` / `Ord::cmp` are
+//                written out and VERIFIED against `client_cmp` (order of the u64; vstd's PartialOrdSpecImpl / OrdSpecImpl give `<`,
+//                `<=`, `>`, `>=`, `lt`.., `cmp`, `partial_cmp` their meaning), `get()` returns the value (stand-in as in unit sticky;
+//                the real body is cfg blocks over NonZeroU64).  `core::cmp::Ordering` is in scope of the extracted code, so other
+//                spellings of the client comparison (`match a.cmp(&b) {..}`, `a.get() < b.get()`, `.is_lt()`, `== Ordering::Less`)
+//                are ingestible and are judged by the contract.
 //   Str          opaque stand-in for `Arc<str>` (SUB, logged).
 //   closure      `|id| blocks.get_item(id)` gets a typed header and `ensures vx_r == blocks.lookup(*id)` (@closure; body untouched).
 //
@@ -141,7 +146,8 @@
 //
 // TRUSTED (module vx_trusted, listed by the trust scanner): `axiom_item_ptr_key_model` (A4', see above), `axiom_str_key_model`
 //   (A4: Arc<str> is a lawful HashMap key), `Option::<&T>::copied` (A2, std: "Maps an Option<&T> to an Option<T> by copying"), the
-//   never-executed `impl Hash for Item` stub.  vstd's own specifications of HashSet::{new, insert, contains, clear},
+//   never-executed `impl Hash for Item` stub; for alternative spellings only (unused by the pinned code): `axiom_ordering_eq_structural`
+//   (A3, as in unit sv: `==` on core::cmp::Ordering is structural) and std `Ordering::{is_lt, is_le, is_gt, is_ge, is_eq, is_ne}` (A2).  vstd's own specifications of HashSet::{new, insert, contains, clear},
 //   HashMap::get, Option::{unwrap, as_ref, and_then, is_some}, PartialEq / PartialOrd on Option.  No assume / admit.
 //
 // NOT IN THIS UNIT: the rest of integrate_item (repair of left / right from the origins, block splitting, the pointer surgery that
@@ -157,6 +163,7 @@
 use vstd::prelude::*;
 use std::collections::HashMap;
 use std::collections::HashSet;
+use core::cmp::Ordering;
 
 verus! {
 
@@ -174,32 +181,65 @@ pub struct Str(pub u64);
 #[derive(PartialEq, Eq, Structural, Clone, Copy, Hash)]
 pub struct ClientID(pub u64);
 
-/// `#[derive(PartialOrd)]` of ClientID, written out for the stand-in (compares the one field)
+/// the order of two client ids = the order of their u64 values
+pub open spec fn client_cmp(a: ClientID, b: ClientID) -> Ordering {
+    if a.0 < b.0 {
+        Ordering::Less
+    } else if a.0 == b.0 {
+        Ordering::Equal
+    } else {
+        Ordering::Greater
+    }
+}
+
+/// `#[derive(PartialOrd, Ord)]` of ClientID, written out for the stand-in (compares the one field).  NOT trusted: the two bodies
+/// below are verified against `client_cmp`; vstd derives `<`, `<=`, `>`, `>=`, `lt`, .., `cmp`, `partial_cmp` from these specs.
 impl vstd::std_specs::cmp::PartialOrdSpecImpl for ClientID {
     open spec fn obeys_partial_cmp_spec() -> bool {
         true
     }
 
-    open spec fn partial_cmp_spec(&self, other: &ClientID) -> Option<core::cmp::Ordering> {
-        if self.0 < other.0 {
-            Some(core::cmp::Ordering::Less)
-        } else if self.0 == other.0 {
-            Some(core::cmp::Ordering::Equal)
-        } else {
-            Some(core::cmp::Ordering::Greater)
-        }
+    open spec fn partial_cmp_spec(&self, other: &ClientID) -> Option<Ordering> {
+        Some(client_cmp(*self, *other))
+    }
+}
+
+impl vstd::std_specs::cmp::OrdSpecImpl for ClientID {
+    open spec fn obeys_cmp_spec() -> bool {
+        true
+    }
+
+    open spec fn cmp_spec(&self, other: &ClientID) -> Ordering {
+        client_cmp(*self, *other)
     }
 }
 
 impl PartialOrd for ClientID {
-    fn partial_cmp(&self, other: &ClientID) -> (r: Option<core::cmp::Ordering>) {
+    fn partial_cmp(&self, other: &ClientID) -> (r: Option<Ordering>) {
+        Some(self.cmp(other))
+    }
+}
+
+impl Ord for ClientID {
+    fn cmp(&self, other: &ClientID) -> (r: Ordering) {
         if self.0 < other.0 {
-            Some(core::cmp::Ordering::Less)
+            Ordering::Less
         } else if self.0 == other.0 {
-            Some(core::cmp::Ordering::Equal)
+            Ordering::Equal
         } else {
-            Some(core::cmp::Ordering::Greater)
+            Ordering::Greater
         }
+    }
+}
+
+impl ClientID {
+    /// STAND-IN for `ClientID::get` (real body, under cfg: `self.0.get() & !Self::MASK` on the NonZeroU64 holding
+    /// `value | MASK` -- the inverse of `new` on 53-bit values; here the stored yjs value itself, as in unit sticky)
+    pub fn get(&self) -> (r: u64)
+        ensures
+            r == self.0,
+    {
+        self.0
     }
 }
 
@@ -209,7 +249,34 @@ impl PartialOrd for ClientID {
 pub mod vx_trusted {
     use vstd::prelude::*;
     use vstd::std_specs::hash::*;
+    use vstd::std_specs::cmp::PartialEqSpec;
+    use core::cmp::Ordering;
     use super::{Str, Item};
+
+    /// A3 (as in unit sv): the derived `PartialEq` of the fieldless std enum `core::cmp::Ordering` is structural equality (vstd
+    /// leaves `==` on `Ordering` uninterpreted).  Needed only for spellings like `a.cmp(&b) == Ordering::Less` /
+    /// `a.partial_cmp(&b) == Some(Ordering::Less)`; the pinned code does not use it.
+    #[verifier::external_body] pub broadcast proof fn axiom_ordering_eq_structural()
+        ensures
+            #[trigger] <Ordering as PartialEqSpec>::obeys_eq_spec(),
+            forall|a: Ordering, b: Ordering| #[trigger] a.eq_spec(&b) == (a == b),
+    {
+    }
+
+    /// A2: std `Ordering::{is_lt, is_le, is_gt, is_ge, is_eq, is_ne}` ("Returns true if the ordering is the Less variant", ...);
+    /// the pinned code does not use them
+    pub assume_specification[ Ordering::is_lt ](o: Ordering) -> (r: bool)
+        ensures r == (o is Less);
+    pub assume_specification[ Ordering::is_le ](o: Ordering) -> (r: bool)
+        ensures r == !(o is Greater);
+    pub assume_specification[ Ordering::is_gt ](o: Ordering) -> (r: bool)
+        ensures r == (o is Greater);
+    pub assume_specification[ Ordering::is_ge ](o: Ordering) -> (r: bool)
+        ensures r == !(o is Less);
+    pub assume_specification[ Ordering::is_eq ](o: Ordering) -> (r: bool)
+        ensures r == (o is Equal);
+    pub assume_specification[ Ordering::is_ne ](o: Ordering) -> (r: bool)
+        ensures r == !(o is Equal);
 
     /// A4: `Arc<str>` (here `Str`) is a lawful std HashMap key
     #[verifier::external_body] pub broadcast proof fn axiom_str_key_model()
@@ -242,7 +309,7 @@ pub mod vx_trusted {
 }
 use vx_trusted::*;
 
-broadcast use {axiom_str_key_model, axiom_item_ptr_key_model};
+broadcast use {axiom_str_key_model, axiom_item_ptr_key_model, axiom_ordering_eq_structural};
 
 // ---------------------------------------------------------------------------------------------
 // the lowered item, the branch, the type pointer (real enum), the store
